@@ -47,8 +47,12 @@ FracDigits(s) == LET t == Unsigned(Significand(s))
                     THEN Len(t) - (CHOOSE i \in DOMAIN t : t[i] = ".") ELSE 0
 Decomp(s) == [neg |-> Neg(s), digits |-> DigitsOnly(Significand(s)),
               frac |-> FracDigits(s), exp |-> ExpPart(s)]
-\* "extreme": magnitude surely outside double / int range (nothing in between is generated)
-ExtremeReal(s) == Len(DigitsOnly(ExpPart(s))) >= 4
+\* "extreme": magnitude surely outside double / int range.  Over the digits {0, 7} an exponent is either at most 77 (in range
+\* with any generated significand) or at least 700 in absolute value once leading zeros are dropped (overflow / underflow);
+\* nothing in between is generated.
+RECURSIVE StripZeros(_)
+StripZeros(d) == IF d # <<>> /\ d[1] = "0" THEN StripZeros(Tail(d)) ELSE d
+ExtremeReal(s) == Len(StripZeros(DigitsOnly(ExpPart(s)))) >= 3
 ExtremeInt(s) == Len(DigitsOnly(s)) >= 11
 
 \* ---------------------------------------------------------------- Mech (utilities.cpp)
